@@ -408,6 +408,13 @@ func (c *ReverseExpandQuery) executeQueryJob(
 		return nil, err
 	}
 
+	// A typed-wildcard subject has no tuples on an edge that names concrete users: buildUserFilter returns
+	// an empty filter for it. Do not issue the read: readers that treat an empty user filter as "no
+	// restriction" (contextual tuples) would yield tuples of other users.
+	if len(userFilter) == 0 {
+		return nil, nil
+	}
+
 	if currentReq.relationStack == nil {
 		return nil, ErrEmptyStack
 	}
